@@ -6,6 +6,10 @@ import numpy as np
 
 
 def _extract_index(layout: ak.contents.Content) -> list:
+    # views (sliced / index-selected arrays) are stored as ListArray, IndexedArray or with offsets
+    # that do not start at 0: bring them to the canonical packed form first
+    layout = layout.to_packed()
+
     if isinstance(layout, awkward.contents.ListOffsetArray):
         offsets = layout.offsets.data
         return [offsets[1:] - offsets[:-1]] + _extract_index(layout.content)
